@@ -53,7 +53,7 @@ def cumsum_rules(ctx, tk):
     rowwise = []
     for n in comp:
         facts = facts_at(fa, n)
-        if not any(t.k == "cmp" and t.a[0] == "is" and t.a[1].k == "param" and t.a[1].a[0] == "axis" and truth for t, truth, _ in facts):
+        if not any(t.k == "cmp" and t.a[0] in ("is", "is not", "==", "!=") and t.a[1].k == "param" and t.a[1].a[0] == "axis" and ((t.a[0] in ("is", "==")) == truth) for t, truth, _ in facts):
             rowwise.append(n)
     what = "the global-cumsum-minus-offsets computation is reached only for integer dtypes; other dtypes are refused"
     if not rowwise:
